@@ -95,6 +95,7 @@ def shorten_runs(P, tier):
     P = ['P_' + p for p in P]
     rs = [R('shorten-paths', 'h_shorten.c', P + SHORT, 'S and B: scheme [//host] <=2 segments of <=1 char over [a-z.]; both modes', ['schemes-differ', 'same-authority-domain-root', 'same-authority-relative'], 600),
           R('shorten-authority', 'h_shorten.c', P + ['KS=1', 'KB=1', 'SEGL=1', 'SFLAGS=(G_SCHEME_REQ|G_AUTH_REQ|G_USERINFO|G_PORT)', 'BFLAGS=(G_SCHEME_REQ|G_AUTH_REQ|G_USERINFO|G_PORT)'], 'S and B with user info none/empty/1 char and port none/empty/1 digit, <=1 segment', ['same-authority-relative'], 600),
+          R('shorten-colon', 'h_shorten.c', P + ['KS=2', 'KB=2', 'SEGL=2', 'GEN_PATH_COLON', 'SFLAGS=(G_SCHEME_REQ|G_AUTH_REQ)', 'BFLAGS=(G_SCHEME_REQ|G_AUTH_REQ)'], 'S and B: scheme //host <=2 segments of <=2 chars over [a-z.:]; both modes', ['same-authority-relative'], 600),
           R('shorten-hostkinds', 'h_shorten.c', P + ['KS=1', 'KB=1', 'SEGL=1', 'SFLAGS=(G_SCHEME_REQ|G_AUTH_REQ|G_HOSTKINDS)', 'BFLAGS=(G_SCHEME_REQ|G_AUTH_REQ|G_HOSTKINDS)'], 'S and B with every host kind (reg-name, IPv4, IPv6, IPvFuture; symbolic digits), <=1 segment', ['same-authority-relative', 'schemes-differ'], 600),
           R('shorten-nonabsolute', 'h_shorten.c', P + ['KS=1', 'KB=1', 'SEGL=1', 'SFLAGS=(G_SCHEME_OPT|G_AUTH)', 'BFLAGS=(G_SCHEME_OPT|G_AUTH)'], 'S or B without scheme (error codes)', ['non-absolute-rejected'], 300)]
     if tier == 'thorough':
@@ -103,7 +104,9 @@ def shorten_runs(P, tier):
 SPECS['C10'] = {'runs': {'quick': shorten_runs(['C10'], 'quick'), 'thorough': shorten_runs(['C10'], 'thorough')},
     'assumptions': COMMON_ASSUME + ['inverse check uses the real resolver (uriAddBaseUriExMm, decided by C06) and oracle R for dot-segment normalisation'],
     'bounds': {'quick': '<=2 segments of 1 char each side', 'thorough': '<=3 segments, queries'}, 'outside': 'longer paths'}
-SPECS['C11'] = {'runs': {'quick': [R('equals', 'h_equals.c', ['KE=1', 'SEGL=1', 'EFLAGS=(G_SCHEME_OPT|G_AUTH|G_QUERY|G_FRAG)'], 'two texts: [scheme] [//host] path<=1 segment [?q] [#f], 1-char pieces', ['equal', 'different'], 600)],
+SPECS['C11'] = {'runs': {'quick': [R('equals', 'h_equals.c', ['KE=1', 'SEGL=1', 'EFLAGS=(G_SCHEME_OPT|G_AUTH|G_QUERY|G_FRAG)'], 'two texts: [scheme] [//host] path<=1 segment [?q] [#f], 1-char pieces', ['equal', 'different'], 600),
+                                   R('equals-hosts-q', 'h_equals.c', ['KE=0', 'SEGL=1', 'EFLAGS=(G_AUTH_REQ|G_HOSTKINDS)'], 'two authorities with every host kind (reg-name, IPv4, IPv6, IPvFuture; symbolic digits)', ['equal', 'different'], 600),
+                                   R('equals-produced', 'h_normres.c', ['KB=1', 'KR=2', 'SEGL=2'], 'pairs of URIs produced by resolve/normalise from the same reference: equal exactly when the recomposed texts are identical', ['ref-relative-path'], 600, kf_of='C09')],
                          'thorough': [R('equals', 'h_equals.c', ['KE=1', 'SEGL=1', 'EFLAGS=(G_SCHEME_OPT|G_AUTH|G_QUERY|G_FRAG)'], 'as quick', ['equal', 'different'], 900),
                                       R('equals-paths', 'h_equals.c', ['KE=3', 'SEGL=1', 'EFLAGS=(G_SCHEME_OPT|G_AUTH)'], 'two texts with <=3 segments', ['equal', 'different'], 2400),
                                       R('equals-hosts', 'h_equals.c', ['KE=0', 'SEGL=1', 'EFLAGS=(G_AUTH_REQ|G_USERINFO|G_PORT|G_HOSTKINDS)'], 'two authorities of every shape', ['equal', 'different'], 2400)]},
@@ -121,16 +124,19 @@ SPECS['C07'] = {'runs': {
     'quick': [R('parse', 'h_parse.c', ['P_C07', 'NMAX=5'], 'parsed URIs, all texts of length 0..5', ['accepted'], 400),
               R('parseIP', 'h_parse.c', ['P_C07', 'PREFIX="//["', 'NMAX=5'], 'parsed URIs with IP literals, "//[" + 0..5 chars', ['host-ip6'], 400),
               R('resolve', 'h_resolve.c', ['P_C07', 'KB=2', 'KR=2', 'SEGL=2'] + RES_PATH, 'resolved URIs (paths config of C06)', RESCOV, 400),
+              R('resolve-k3', 'h_resolve.c', ['P_C07', 'KB=1', 'KR=3', 'SEGL=1'] + RES_PATH, 'resolved URIs, references of <=3 one-character segments', RESCOV, 300),
               R('resolve-mixed', 'h_resolve.c', ['P_C07'] + RES_CM, 'resolved URIs (mixed config of C06)', ['ref-has-scheme'], 600),
+              R('shorten-colon', 'h_shorten.c', ['P_C07', 'KS=2', 'KB=2', 'SEGL=2', 'GEN_PATH_COLON', 'SFLAGS=(G_SCHEME_REQ|G_AUTH_REQ)', 'BFLAGS=(G_SCHEME_REQ|G_AUTH_REQ)'], 'created references, <=2 segments of <=2 chars over [a-z.:]', ['same-authority-relative'], 600),
               R('normalize', 'h_norm.c', ['P_C07'] + NORM_DOTS, 'normalised URIs (dots config of C08), masks {0, PATH, all, required}, borrowed and owned', ['owned-in-place', 'borrowed-copying'], 600),
               R('shorten', 'h_shorten.c', ['P_C07'] + SHORT, 'created references (paths config of C10)', ['same-authority-relative'], 600),
-              R('make-owner', 'h_owner.c', ['P_C07', 'KO=1'], 'owned copies, every authority shape', ['host-ip4', 'host-ip6', 'host-ipfuture', 'host-regname', 'empty-host'], 600)],
+              R('make-owner', 'h_owner.c', ['P_C07', 'KO=1'], 'owned copies, every authority shape', ['host-ip4', 'host-ip6', 'host-ipfuture', 'host-regname', 'empty-host'], 600),
+              R('chain', 'h_normres.c', ['P_C07', 'KB=1', 'KR=2', 'SEGL=2', 'GEN_PATH_COLON'], 'two-step histories: normalise->resolve->normalise and resolve->normalise on base<=1, reference<=2 segments', ['ref-relative-path'], 600, kf_of='C09')],
     'thorough': [R('parse', 'h_parse.c', ['P_C07', 'NMAX=6'], 'parsed URIs, length 0..6', ['accepted'], 2400),
               R('resolve-3', 'h_resolve.c', ['P_C07', 'KB=2', 'KR=3', 'SEGL=2'] + RES_PATH, 'resolved URIs, references of <=3 segments', RESCOV, 2400),
               R('resolve-colon', 'h_resolve.c', ['P_C07', 'KB=2', 'KR=2', 'SEGL=2', 'GEN_PATH_COLON'] + RES_PATH, 'resolved URIs, segments over [a-z.:]', RESCOV, 2400),
               R('normalize', 'h_norm.c', ['P_C07'] + NORM_DOTS, 'normalised URIs', ['owned-in-place'], 2400),
               R('shorten-3', 'h_shorten.c', ['P_C07', 'KS=3', 'KB=3', 'SEGL=1', 'GEN_PATH_COLON', 'SFLAGS=(G_SCHEME_REQ|G_AUTH)', 'BFLAGS=(G_SCHEME_REQ|G_AUTH)'], 'created references, <=3 segments over [a-z.:]', ['same-authority-relative'], 2400),
-              R('chain-resolve-normalize', 'h_normres.c', ['P_C07', 'KB=2', 'KR=2', 'SEGL=2', 'GEN_PATH_COLON'], 'two-step histories normalise->resolve->normalise and resolve->normalise', ['ref-relative-path'], 2400),
+              R('chain-resolve-normalize', 'h_normres.c', ['P_C07', 'KB=2', 'KR=2', 'SEGL=2', 'GEN_PATH_COLON'], 'two-step histories normalise->resolve->normalise and resolve->normalise', ['ref-relative-path'], 2400, kf_of='C09'),
               R('make-owner', 'h_owner.c', ['P_C07', 'KO=2'], 'owned copies', ['host-ip6'], 2400)]},
     'assumptions': COMMON_ASSUME + ['histories: one operation after parsing (quick), plus the two-operation chains of h_normres (thorough); longer histories are not explored'],
     'bounds': {'quick': 'bounds of the owning harnesses (C01/C06/C08/C10/C12 quick)', 'thorough': 'larger bounds and two-step chains'}, 'outside': 'histories longer than two operations; the inductive INV step of DESIGN 5/C07 was not built'}
@@ -154,10 +160,12 @@ SPECS['C13'] = {'runs': {
               R('default', 'h_mm.c', [], 'memory == NULL for all nine entry points on a fixed URI/query', ['default-manager'], 300),
               R('parse', 'h_parse.c', ['P_C13', 'NMAX=5'], 'ledger balance and no libc allocator call for parse/free, texts 0..5', ['accepted'], 400),
               R('resolve', 'h_resolve.c', ['P_C13'] + RES_CM, 'ledger balance for resolve (mixed config)', ['ref-has-scheme'], 600),
+              R('resolve-hosts', 'h_resolve.c', ['P_C13'] + RES_CB, 'ledger balance / allocator attribution for resolve with every host kind in the base', ['ref-has-scheme'], 600),
               R('shorten', 'h_shorten.c', ['P_C13'] + SHORT, 'ledger balance for reference creation', ['schemes-differ'], 600),
               R('normalize', 'h_norm.c', ['P_C13'] + NORM_DOTS, 'ledger balance for normalisation', ['owned-in-place', 'borrowed-copying'], 600),
               R('make-owner', 'h_owner.c', ['KO=1'], 'ledger balance for make-owner', ['host-ip6'], 600),
-              R('query', 'h_query.c', ['MODE_DISSECT', 'NMAX=4'], 'ledger balance for dissect / free query list', ['several-items'], 300)],
+              R('query', 'h_query.c', ['MODE_DISSECT', 'NMAX=4'], 'ledger balance for dissect / free query list', ['several-items'], 300),
+              R('compose-malloc', 'h_query.c', ['ITEMS=1', 'SEGL=1'], 'uriComposeQueryMallocExMm: one block from the manager, freed by the caller', ['round-trip'], 600)],
     'thorough': [R('incomplete', 'h_mm.c', ['INCOMPLETE'], 'as quick', ['incomplete-rejected'], 300), R('default', 'h_mm.c', [], 'as quick', ['default-manager'], 300),
               R('parse', 'h_parse.c', ['P_C13', 'NMAX=6'], 'texts 0..6', ['accepted'], 2400), R('parseIP', 'h_parse.c', ['P_C13', 'PREFIX="//["', 'NMAX=6'], 'IP literals', ['host-ip6'], 2400),
               R('resolve-3', 'h_resolve.c', ['P_C13', 'KB=2', 'KR=3', 'SEGL=2'] + RES_PATH, 'resolve, references of <=3 segments', RESCOV, 2400),
